@@ -11,6 +11,7 @@ from __future__ import annotations
 import ast
 
 from ..astutil import AnalysisError, dotted, src, walk_local
+from .. import pattern as P
 
 # documented widths; `o` = the other operand
 DOC = {
@@ -24,7 +25,6 @@ DOC = {
     "_cohdl_rem_": {"vector": "o.width", "int": "self.width"},
     "_cohdl_rrem_": {"vector": "self.width", "int": "self.width"},
 }
-WIDTH_VARS = ("result_width", "target_width")
 CLASSES = (("cohdl/_core/_unsigned.py", "Unsigned"), ("cohdl/_core/_signed.py", "Signed"))
 
 
@@ -67,8 +67,10 @@ def branch_kind(test: ast.AST, own: str, param: str) -> str | None:
     return None
 
 
-def extract(fn: ast.AST, own: str):
-    """-> {kind: [(canonical width expr, line)]}, other-param name"""
+def extract(fn: ast.AST, own: str, width_vars=None):
+    """-> {kind: [(canonical width expr, line)]}, other-param name.  The width variable is whatever local the
+    result is constructed with (`Own[<var>](...)`), not a fixed spelling."""
+    WIDTH_VARS = width_vars if width_vars is not None else _width_vars(fn, own)
     params = [a.arg for a in fn.args.args if a.arg != "self"]
     if not params:
         raise AnalysisError("no operand parameter")
@@ -92,7 +94,7 @@ def extract(fn: ast.AST, own: str):
                 out[k].extend(assigns(node.body))
                 if k == "int" and node.orelse and not (len(node.orelse) == 1 and isinstance(node.orelse[0], ast.If)):
                     # `if int: ... else: <vector>` form (add)
-                    has_guard = any("isinstance" in src(x) and own in src(x) for s in node.orelse for x in walk_local(s) if isinstance(x, ast.If))
+                    has_guard = any("isinstance" in P.T(x) and own in P.T(x) for s in node.orelse for x in walk_local(s) if isinstance(x, ast.If))
                     if has_guard:
                         out["vector"].extend(assigns(node.orelse))
             if len(node.orelse) == 1 and isinstance(node.orelse[0], ast.If):
@@ -104,6 +106,14 @@ def extract(fn: ast.AST, own: str):
         if isinstance(s, ast.If):
             chain(s)
     return out, other
+
+
+def _width_vars(fn, own):
+    out = set()
+    for c in walk_local(fn):
+        if isinstance(c, ast.Call) and isinstance(c.func, ast.Subscript) and dotted(c.func.value) == own and isinstance(c.func.slice, ast.Name):
+            out.add(c.func.slice.id)
+    return out
 
 
 def returns_width_var(fn: ast.AST, own: str) -> list[str]:
@@ -142,7 +152,7 @@ def run_rule(run, rule_id):
                     run.ob(text == doc[kind], f"{own}.{name}", file=rel, line=line, detail=f"{kind}-operand",
                            expected=doc[kind].replace("o.", other + "."), found=text.replace("o.", other + "."))
             subs = returns_width_var(f.node, own)
-            bad = [s for s in subs if s not in WIDTH_VARS]
+            bad = [s for s in subs if s not in _width_vars(f.node, own)]
             if not subs:
                 raise AnalysisError(f"{own}.{name}: result construction not found")
             run.ob(not bad, f"{own}.{name}", file=rel, line=f.node.lineno, detail="result-constructed-with-width",
